@@ -2,6 +2,8 @@
 and the guard-atom canonicaliser used by the signature rules."""
 import ast
 
+from .astcopy import clone
+
 from .deps import Facts, base_name, names_in, pseudo
 from .loader import AnalysisError, ClassInfo, FuncInfo, own_nodes, parent_chain
 from .paths import (BREAK, CONTINUE, FALL, RAISE, RETURN, Enumerator, Item, Path, calls_in, eval_order,
@@ -663,7 +665,7 @@ def alpha_text(node, fnode):
                     order[n.id] = '$%d' % (len(order) + 1)
                 return ast.copy_location(ast.Name(id='V%s' % order[n.id][1:] + '__alpha', ctx=n.ctx), n)
             return n
-    t = T().visit(copy.deepcopy(node))
+    t = T().visit(clone(node))
     import re
     return re.sub(r'V(\d+)__alpha', r'$\1', u(t))
 
